@@ -43,12 +43,14 @@ n_ctx = dict(cls='next_op', members=['stream_', 'receiver_', 'concreteReceiver_'
     (r'stopToken\.stop_requested\(\)', 'EV_stop_requested(this)'),
     (r'static_assert\([^;]*\);', ''),
     (r'(?s)stream_\.nextOp_\.construct_with\(\[&\] \{\s*return unifex::connect\([^;]*;\s*\}\);', 'if (EV_nextOp_construct(stream_)) goto vf_catch_out;'),
-    (r'(?s)stopCallback_\.construct\(\s*std::move\(stopToken\), cancel_next_callback\{stream_\}\);', 'if (EV_cb_construct(this)) goto vf_catch_in;'),
-    (r'unifex::start\(stream_\.nextOp_\.get\(\)\);', 'EV_source_next_start(stream_);'),
+    # `stream& strm = stream_;` (a local alias taken BEFORE the callback is registered): reference -> pointer
+    (r'stream& strm = stream_;', 'struct stream* strm = stream_;'),
+    (r'(?s)stopCallback_\.construct\(\s*std::move\(stopToken\), cancel_next_callback\{(?:stream_|strm)\}\);', 'if (EV_cb_construct(this)) goto vf_catch_in;'),
+    (r'unifex::start\((stream_|strm)\.nextOp_\.get\(\)\);', r'EV_source_next_start(\1);'),
     (r'stream_\.nextOp_\.destruct\(\);', 'EV_nextOp_destruct(stream_);'),
     (r'unifex::set_done\(std::move\(receiver_\)\);', 'EV_consumer_done(this);'),
     (r'unifex::set_error\(std::move\(receiver_\), std::current_exception\(\)\);', 'EV_consumer_error(this);'),
-] + TRY_CATCH_NEXT + refs('stream_'),
+] + TRY_CATCH_NEXT + refs('stream_', 'strm'),
     post=[(r'\bself->', 'VF_OP(self)->')])
 
 l_ctx = dict(cls='cleanup_op', members=['stream_', 'receiver_', 'cleanupOp_'], pre=[
@@ -111,10 +113,9 @@ SPEC = dict(
         dict(name='cancel_next_callback', harness='h_cancel_callback', enforce='cancel_next_callback_call'),
         dict(name='handle_signal', harness='h_handle_signal', enforce='next_receiver_handle_signal'),
         dict(name='next_start', harness='h_next_start', enforce='next_op_start'),
-        # the same text, with the consumer allowed to destroy the next operation as soon as it has been completed
-        # (operation-state lifetime rule); fails on the unchanged tree: see assumptions / report.  thorough tier only
-        # until the lead registers the finding
-        dict(name='next_start_op_lifetime', harness='h_next_start', enforce='next_op_start', defines=['VF_OP_MAY_DIE'], tier='thorough'),
+        # the same text, with the consumer allowed to destroy the next operation as soon as the stop callback has completed it
+        # (operation-state lifetime rule): start() must not read a member of the operation after registering the callback
+        dict(name='next_start_op_lifetime', harness='h_next_start', enforce='next_op_start', defines=['VF_OP_MAY_DIE']),
         dict(name='cleanup_start', harness='h_cleanup_start', enforce='cleanup_op_start'),
         dict(name='start_cleanup', harness='h_start_cleanup', enforce='cleanup_op_start_cleanup'),
         dict(name='concrete_receiver_set_value', harness='h_concrete_set_value', enforce='concrete_receiver_set_value'),
@@ -130,7 +131,7 @@ SPEC = dict(
         'consumer protocol (stream concept): next() is not called again before the previous next() was signalled, not after done / error, and not after cleanup(); cleanup() is called once, after the last next() was signalled',
         'the stop callback runs at most once per registration, only while registered; its destructor waits for a run in progress on another thread and returns at once when called from inside the callback (C03, specs/stop_token)',
         'the source stream completes each started next() exactly once, by calling one of next_receiver::set_value/set_done/set_error (each of which is handle_signal with a delivery lambda); unifex::start() does not throw',
-        'the consumer does not destroy the next operation while its start() is still running (NOT justified by the operation-state rules: unit next_start_op_lifetime drops it and fails, see report: start() reads stream_ after the stop callback may have completed and destroyed the operation)',
+        'unit next_start assumes that the consumer does not destroy the next operation while its start() is still running; unit next_start_op_lifetime drops that assumption (the consumer may destroy the operation as soon as the stop callback has completed it) and checks that start() reads no member of the operation after registering the callback (fixed defect C13-stop-immediately-start-reads-op-after-callback)',
         'the cleanup operation passed to start_cleanup lives until its receiver is completed; the stream outlives its cleanup',
         'NOT REACHED: element order / values of every adaptor, reduce_stream / for_each folds, type_erased_stream, the delivery lambdas of next_receiver::set_value/set_done/set_error (nextError_ hand-off), take_until (own group if added)',
         'atomics sequentially consistent',
